@@ -108,9 +108,16 @@ def gen_file(rng):
     return text, pattern
 
 
-def gen_ops(rng, nmarks):
+def gen_ops(rng, nmarks, marks=None, takes_nl=False):
     n = rng.choice([0, 1, 2, nmarks, nmarks, nmarks + 1, nmarks + 2])
     ops = ["N"] * n
+    if marks is not None and rng.random() < 0.2:
+        # a SECOND pass over the same file on the same report (e.g. first independently, then cumulatively):
+        # stop, separate again in either mode, walk again - nothing of the first pass (line offset!) may survive
+        m = "".join("1" if f else "0" for f in marks) or "-"
+        letter = rng.choice("ic")
+        ops += ["T", "S" + (letter.upper() if takes_nl else letter) + m]
+        ops += ["N"] * rng.choice([0, 1, nmarks, nmarks + 1])
     tail = rng.random()
     if tail < 0.45:
         ops.append("T")
@@ -148,6 +155,8 @@ def run_real(text, pattern, independent, ops):
         try:
             if op == "N":
                 next_section()
+            elif op.startswith("S"):
+                separate_into_sections(pattern=pattern, independent=op[1] in "iI")
             elif op == "T":
                 stop_sections()
             elif op == "R":
@@ -206,7 +215,7 @@ def correspond(rng, tier, driver):
             res.count("skipped:pattern-precondition")
             continue
         independent = rng.random() < 0.5
-        ops = gen_ops(rng, sum(marks))
+        ops = gen_ops(rng, sum(marks), marks, takes_nl)
         real, sections = run_real(text, pattern, independent, ops)
         rq = model_requests(text, marks, independent, ops, takes_nl)
         cases.append({"text": text, "pattern": pattern, "independent": independent, "ops": ops, "real": real,
@@ -302,6 +311,9 @@ def gen_planted(rng):
     text = "\n".join(lines) + ("\n" if rng.random() < 0.8 else "")
     independent = rng.random() < 0.6
     out = {"text": text, "pattern": pattern, "k": k, "kind": kind, "line": planted_line, "independent": independent}
+    if rng.random() < 0.25:
+        # an earlier pass over the same file on the same report (other mode possible), walked some way and stopped
+        out["prepass"] = {"independent": rng.random() < 0.7, "nexts": rng.randint(1, nsec)}
     if independent:
         start = sum(len(c) for c in chunks[:k]) + k          # lines before section k's body incl. its marker line
         out["section_lines"] = (start, start + len(chunks[k]) + 1)
@@ -314,6 +326,12 @@ def check_planted(p):
     clear_report()
     contextualize_report(text)
     try:
+        pre = p.get("prepass")
+        if pre:
+            separate_into_sections(pattern=p["pattern"], independent=pre["independent"])
+            for _ in range(pre["nexts"]):
+                next_section()
+            stop_sections()
         separate_into_sections(pattern=p["pattern"], independent=p["independent"])
         for _ in range(p["k"]):
             next_section()
